@@ -17,3 +17,17 @@ CHECKS = {
         "determinism_runs": 3000,
     },
 }
+
+CHECKS["C20"] = {
+    "id": "C20", "engine": "envsim", "flavour": "asan", "binary": "build/asan/c20", "level": "exploration",
+    "tiers": {"quick": {"runs": 150000, "batch": 1500, "wall_cap": 300}, "thorough": {"runs": 5000000, "batch": 5000, "wall_cap": 1500}},
+    "rule": "one case = one seeded environment (particles, dims, objective kind, domain kind, coefficients, initialisation, endpoint-draw injections) "
+            "and a plan of 1-4 ParticleSwarm calls separated by state edits (none, clearCache, clearBestParticles, both, manual positions/bests + clearCache, "
+            "manual velocities); calls separated by 'none' are also executed merged (n then m vs n+m); distinct = distinct (configuration shape, call/edit plan, injections)",
+    "components": {"real": ["TasOptimization::ParticleSwarm", "ParticleSwarmState (all setters, clearCache, clearBestParticles, initializeParticlesInsideBox)"],
+                   "simulated": ["random-number source (seeded stream + injected 0.0/1.0 draws)", "objective function", "domain test", "the caller's sequence of calls and state edits"]},
+    "expect_probes": ["reach.best_reevaluated", "reach.particle_never_inside", "reach.swarm_never_inside", "reach.placeholder_best_reevaluated"],
+    "assumptions": ["objective and domain are pure functions; manual edits of positions or bests are followed by clearCache() and manual bests are self-consistent (swarm strip = best in-domain personal best)",
+                    "cached objective values are private: they are checked through the positions they select, not read directly"],
+    "determinism_runs": 3000,
+}
